@@ -371,7 +371,7 @@ PROPS["C16"] = {
     "level_note": "Trusted: Lean kernel; extractor; third-party parsers; harness worker supervision.",
 }
 PROPS["C18"] = {
-    "lean": "Props.C18", "domains": [{"name": "race"}], "race": True,
+    "lean": "Props.C18", "domains": [{"name": "race"}], "race": True, "cli_race": "always",
     "trusted": ["phase and confinement classification in extract2/classify.go (which functions run only while the program is single-threaded, which "
                 "objects are fresh per call / per command) — validated by the race-detector runs, not proved; syntactic, intraprocedural lockset "
                 "(a mutex counts as held from its Lock() statement to Unlock(), path-insensitive except for blocks that return)"],
